@@ -95,6 +95,21 @@ def k_align(run, case):
         for attr in ("positions_xyz", "orientations_quat_wxyz", "poses_se3", "distances", "path_length"):
             if rng.random() < .35:
                 getattr(t_est, attr)
+    if not toy and rng.random() < .08:
+        # history: a mirror matrix was offered to transform() before.  If evo refuses it the
+        # estimate is still the trajectory it was and is aligned below; if evo accepts it the
+        # object is outside the statement and a fresh one takes its place.
+        from evo import EvoException
+        try:
+            t_est.transform(np.diag([1.0, -1.0, 1.0, 1.0]))
+            refused = False
+        except EvoException:
+            refused = True
+            run.hit("alignment after a refused transformation")
+        except Exception:
+            refused = False
+        if not refused:
+            t_est = gen.make_evo(est, storage, stamped, flavour=fl_est)
     ref_before = contracts.field_snapshot(t_ref)
     cs = mode == "similarity"
     only = mode == "scale_only"
